@@ -4,15 +4,21 @@ Garbage prefixes (random bytes, corrupted / truncated valid frames, frames for a
 ':' + non-hex, partial frames) are fed to the RTU, ASCII and binary receivers, followed by 1..50 valid frames, one per read
 and several per read.  Checked on the real receiver: once 512 bytes of valid traffic (two maximum-size frames) have
 arrived after the garbage, every later valid frame is delivered (ASCII/binary: every frame after the first); the backlog
-len(_buffer) stays bounded; call-by-call agreement with the model receiver."""
+len(_buffer) stays bounded; call-by-call agreement with the model receiver.
+
+The same through the REAL serial-style server handler (ModbusSingleRequestHandler, its socket a stream: a read returns at most
+the bytes it asked for): garbage, then data-access requests to the hosted unit, one or several per arrival; every request
+of an arrival that starts after the bound must be answered (one response frame each, its function code), and the bytes
+written agree with the model server call by call."""
 from harness.runner import Report
-from harness import msggen, framelib
+from harness import msggen, framelib, execlib, serverlib
 from harness.c02 import in_range
 from harness.c01 import devinfo_fits
 from harness.c06 import frame_ok
 from harness.c07 import windows_valid
 
 ASSUMPTIONS = ['valid frames arrive whole (one or several per read) after the garbage has ended',
+               'the serial port of the server handler is an in-process stream: a read returns at most the bytes asked for and blocks only when nothing is left',
                'RTU: streams in which a window that starts inside the garbage passes the CRC (a false frame, probability about '
                '2^-16 per window) are counted and excluded; the client-side RTU length oracle is a recorded known finding']
 RULE = ('garbage kinds {random bytes, corrupted frame, truncated frame, foreign-unit frame, delimiter soup, partial frame, head announcing a frame at/beyond the maximum size} x '
@@ -217,6 +223,59 @@ def check_cases(ctx, rep, cases):
                           finding=classify(name, rdir, 'backlog', uid, chunks), worst=worst, bound=bound)
 
 
+def gen_handler_case(rng):
+    framer = rng.choice(['rtu', 'rtu', 'ascii', 'binary'])
+    uid = rng.choice([1, 2, 0x11])
+    units = [[uid, execlib.gen_layout(rng, 0.0)]]
+    kind, g = gen_garbage(rng, framer, 'req', uid)
+    frames, fcs = [], []
+    for _ in range(rng.choice([3, 20, 60, 110] if framer == 'rtu' else [2, 3, 8, 20])):
+        r = execlib.gen_req(rng, units[0][1], [], 0.1)
+        if framer == 'rtu' and 'raw' in r and len(r['raw']) != r.get('byte_count', r.get('write_byte_count')):
+            continue   # on RTU the byte count field delimits the frame
+        pdu = list(execlib.enc_req(r))
+        f = serverlib.frame_pdu(framer, pdu, uid, 0)
+        if framer == 'binary' and framelib.has_delim(f):
+            continue
+        frames.append(f)
+        fcs.append(pdu[0])
+    k = rng.choice([1, 1, 2, 3])
+    chunks, reads = ([g] if g else []), ([[]] if g else [])
+    if g and len(g) > 1 and rng.random() < 0.3:
+        chunks, reads = [g[:len(g) // 2], g[len(g) // 2:]], [[], []]
+    for i in range(0, len(frames), k):
+        chunks.append([b for f in frames[i:i + k] for b in f])
+        reads.append(fcs[i:i + k])
+    return dict(kind='handler-resync', frontend='syncSerial', framer=framer, single=False, units=units, ignore_missing=rng.random() < 0.5,
+                broadcast=False, chunks=chunks, reads=reads, glen=len(g), garbage_kind=kind, uid=uid)
+
+
+def check_handlers(ctx, rep, cases):
+    for c, (real, a) in zip(cases, serverlib.run_both(ctx, cases)):
+        outs, escs, dumps, alive, control = real
+        case = {k: c[k] for k in ('kind', 'frontend', 'framer', 'single', 'units', 'ignore_missing', 'broadcast', 'chunks', 'reads', 'glen', 'uid')}
+        rep.case(('handler', c['framer'], str(c['chunks'])), nontrivial=c['glen'] > 0, tag='handler:%s:%s' % (c['framer'], c['garbage_kind']))
+        serverlib.compare(rep, case, real, a, 'serial handler after garbage vs Server.connStep')
+        acc, first, stream = 0, True, [b for ch in c['chunks'] for b in ch]
+        for j, (ch, fcs) in enumerate(zip(c['chunks'], c['reads'])):
+            if not fcs:
+                continue
+            required = acc >= 512 if c['framer'] == 'rtu' else not first
+            first = False
+            start = acc
+            acc += len(ch)
+            if not required:
+                continue
+            got = [(serverlib.frame_fc(c['framer'], f) or 0) & 0x7F for f in outs[j]]
+            if got != fcs:
+                if c['framer'] == 'rtu' and has_false_frame(stream[:c['glen'] + start], c['glen']):
+                    rep.hist['excluded:false-frame'] += 1
+                    break
+                rep.violation('requests that arrived after the garbage (and after two maximum-size frames of valid traffic) were not all '
+                              'answered by the serial server handler', case, read=j, requests=fcs, answered=got, escaped=[e for e in escs if e][:2])
+                break
+
+
 def run(ctx):
     rep = Report(RULE)
     rng = ctx.rng
@@ -257,11 +316,18 @@ def run(ctx):
                     cases.append((name, rdir, uid, kind, g, frames, chunks))
         if cases:
             check_cases(ctx, rep, cases)
+        check_handlers(ctx, rep, [gen_handler_case(rng) for _ in range(3)])
     return rep
 
 
 def replay(ctx, payload):
     c = payload['case']
+    if c.get('kind') == 'handler-resync':
+        rep = Report(RULE)
+        check_handlers(ctx, rep, [dict(c, garbage_kind=c.get('garbage_kind', 'replay'))])
+        if rep.violations:
+            return rep.violations[0]['what']
+        return 'model/implementation disagreement' if rep.disagreements else None
     a = ctx.driver.query([{'op': 'feed', 'framer': c['framer'], 'dir': c['dir'], 'units': [c['uid']], 'single': False, 'chunks': c['chunks']}])[0]
     calls = framelib.real_feed(c['framer'], c['dir'], [c['uid']], False, c['chunks'])
     if calls != a['calls']:
